@@ -1,19 +1,19 @@
 SPECIFICATION Spec
 CONSTANTS
-  NOISY = TRUE
+  NOISY = FALSE
   PAIRS <- PAIRS_cross
   NP = 8
   NR = 2
   NC = 5
-  MINPKS = 2
+  MINPKS = 0
   MAXGRAINS = 3
   UNIQ_NUM = 1
   UNIQ_DEN = 2
-  NPASS = 1
-  MINPKS2 = 2
+  NPASS = 2
+  MINPKS2 = 1
   NCAP = 0
-  ALLHITS = TRUE
-  NSAVE = 0
+  ALLHITS = FALSE
+  NSAVE = 2
   FRESH = TRUE
 INVARIANT GaRange
 INVARIANT AcceptedScore
@@ -23,4 +23,5 @@ INVARIANT NoRepeat
 INVARIANT OwnPeaksKept
 INVARIANT Completeness
 PROPERTY Termination
+PROPERTY SaveOK
 CHECK_DEADLOCK FALSE
